@@ -203,6 +203,60 @@ pub fn boundary_features(cmds: &[Cmd], stdin: &[u8], budget: u64) -> u32 {
     f
 }
 
+/// Prepare a build path for `hyeong build` that works offline: the runtime crate is a path dependency on the
+/// repository under test (what `hyeong install` would fetch from its git URL).
+fn prepare_build_path(bp: &std::path::Path) -> bool {
+    let repo = std::env::var("VERIF_REPO").unwrap_or_else(|_| "/repo".to_string());
+    let crate_dir = bp.join("hyeong-build");
+    if std::fs::create_dir_all(crate_dir.join("src")).is_err() {
+        return false;
+    }
+    let manifest = format!(
+        "[package]\nname = \"hyeong-build\"\nversion = \"0.1.0\"\nedition = \"2018\"\n\n[dependencies]\nhyeong = {{ path = \"{}\", features = [\"number\"], default-features = false }}\n\n[workspace]\n",
+        repo
+    );
+    std::fs::write(crate_dir.join("Cargo.toml"), manifest).is_ok()
+}
+
+/// One `hyeong build -O<level>` of the scenario's program in `bp`, then the executable against the model.
+fn cli_case(bin: &std::path::Path, bp: &std::path::Path, sc: &Scenario, pf: &reflang::Preflight, level: u8) -> Option<Violation> {
+    let file = bp.join("p.hyeong");
+    std::fs::write(&file, sc.file_content()).expect("write");
+    let exe = bp.join(format!("p{}.bin", level));
+    let _ = std::fs::remove_file(&exe);
+    let args: Vec<String> = vec![
+        "build".into(),
+        "--color".into(),
+        "never".into(),
+        "--build-path".into(),
+        bp.to_string_lossy().into_owned(),
+        format!("-O{}", level),
+        file.to_string_lossy().into_owned(),
+        "-o".into(),
+        exe.to_string_lossy().into_owned(),
+    ];
+    // run from the build path: no cargo configuration of the verification workspace may leak into the build
+    let b = std::process::Command::new(bin).args(&args).current_dir(bp).env("CARGO_NET_OFFLINE", "true").env_remove("RUSTFLAGS").env_remove("CARGO_TARGET_DIR").output().ok()?;
+    if !b.status.success() || !exe.exists() {
+        return Some(Violation::new(
+            &format!("cli-O{}-build", level),
+            "`hyeong build` produces an executable",
+            format!("status {:?} ; stderr {:?} ; stdout {:?}", b.status.code(), lossy(&b.stderr), lossy(&b.stdout)),
+        ));
+    }
+    let chunks = real::chunks_from_plan(&sc.plan, 64);
+    let r = real::run(&exe, &[], None, &sc.stdin, &chunks, Duration::from_secs(20)).expect("spawn");
+    let want = if let Halt::Ended(End::Exit(c)) = &pf.halt { *c } else { 0 };
+    if r.timed_out || r.status != Some(want) || r.stdout != pf.m.out || r.stderr != pf.m.err {
+        return Some(Violation::new(
+            &format!("cli-O{}-output", level),
+            format!("status {} ; stdout {:?} ; stderr {:?}", want, lossy(&pf.m.out), lossy(&pf.m.err)),
+            format!("{} ; stdout {:?} ; stderr {:?}", r.describe(), lossy(&r.stdout), lossy(&r.stderr)),
+        ));
+    }
+    None
+}
+
 impl Property for C03 {
     fn id(&self) -> &'static str {
         "C03"
@@ -580,6 +634,86 @@ impl Property for C03 {
             }
         }
         out
+    }
+    fn post(&self, tier: Tier, seed: u64, stats: &mut crate::runner::Stats) -> Option<(Scenario, Violation)> {
+        // RealWorld through the real command line: `hyeong build` (app/build.rs, clap, the cargo invocation it
+        // spawns) in a build path prepared offline: hyeong-build/Cargo.toml with a path dependency on the
+        // repository under test instead of the git URL `install` would write.
+        let bin = match real::binary() {
+            Ok(b) => b,
+            Err(e) => {
+                println!("HARNESS-ERROR: {}", e);
+                std::process::exit(2);
+            }
+        };
+        let workers = 4u64;
+        let per_worker: u64 = if tier == Tier::Thorough { 40 } else { 3 };
+        let root = crate::sim::scratch_root().join("c03cli");
+        let found: std::sync::Mutex<Vec<(u64, Scenario, Violation)>> = std::sync::Mutex::new(Vec::new());
+        let built = std::sync::atomic::AtomicU64::new(0);
+        std::thread::scope(|sc_| {
+            for w in 0..workers {
+                let (bin, root, found, built) = (&bin, &root, &found, &built);
+                sc_.spawn(move || {
+                    let bp = root.join(format!("bp{}", w));
+                    if !prepare_build_path(&bp) {
+                        return;
+                    }
+                    for k in 0..per_worker {
+                        let i = w + k * workers;
+                        if !found.lock().unwrap().is_empty() {
+                            return;
+                        }
+                        let sc = crate::runner::make_scenario(self, seed, i, tier);
+                        if sc.cmds.is_empty() {
+                            continue;
+                        }
+                        let pf = match terminating(&sc.cmds, &sc.stdin, sc.budget, sc.cap_bits) {
+                            Some(p) => p,
+                            None => continue,
+                        };
+                        if !matches!(pf.halt, Halt::Ended(End::End) | Halt::Ended(End::Exit(_))) {
+                            continue;
+                        }
+                        for level in 0u8..=2 {
+                            built.fetch_add(1, std::sync::atomic::Ordering::Relaxed);
+                            let v = cli_case(bin, &bp, &sc, &pf, level);
+                            if let Some(mut v) = v {
+                                v.world = "real";
+                                let mut s = sc.clone();
+                                s.level = level;
+                                s.subcommand = "build".into();
+                                found.lock().unwrap().push((i, s, v));
+                                return;
+                            }
+                        }
+                    }
+                });
+            }
+        });
+        let _ = std::fs::remove_dir_all(&root);
+        stats.extra.push(("realworld_cli_builds".into(), J::Int(built.load(std::sync::atomic::Ordering::Relaxed) as i64)));
+        stats.extra.push((
+            "realworld_note".into(),
+            J::str("`hyeong build -O0/1/2` of the release binary in a build path prepared offline (runtime crate as a path dependency on the repository under test), then the produced executable on real pipes against the reference model"),
+        ));
+        let mut f = found.into_inner().unwrap();
+        f.sort_by_key(|x| x.0);
+        f.into_iter().next().map(|(_, s, v)| (s, v))
+    }
+    fn replay_real(&self, sc: &Scenario) -> Option<Violation> {
+        let bin = real::binary().ok()?;
+        let pf = terminating(&sc.cmds, &sc.stdin, sc.budget, sc.cap_bits)?;
+        let bp = crate::sim::scratch_root().join("c03cli-replay");
+        if !prepare_build_path(&bp) {
+            return None;
+        }
+        let v = cli_case(&bin, &bp, sc, &pf, sc.level).map(|mut v| {
+            v.world = "real";
+            v
+        });
+        let _ = std::fs::remove_dir_all(&bp);
+        v
     }
     fn components(&self) -> J {
         J::obj()
